@@ -46,6 +46,20 @@ sometimes parked elsewhere; each access must raise / return what parsing the tar
 stream of the same kind gives, leave the stream position EXACTLY where it was whatever the outcome, and give the fault-free parse on a repeated
 access; then REC 2 is parsed from the stream and must be (value, end position, what its pointers dereference to) what a fresh parse at that
 offset gives.  All seven widths, both byte orders, both readers.
+
+Pointer-arithmetic chains (harness/v6_c16.py, arith_chains): generated records `{ T *p; T *q; T *arr[2]; T **pp; }` (scalars, enum, `char`
+strings, `wchar`, `void`, fixed / dynamic / NUL-terminated-member structures, a self-referential node; packed / aligned) parsed from a
+BytesIO, a BytesIO subclass, a plain read/seek/tell object or directly from bytes, holding null, small, in-range, last-byte, beyond-the-data
+and top-of-address-space addresses.  From every pointer of the record (null ones included), the pointer `pp` dereferences to, a pointer type
+read on its own and the stream-less pointer of a default-constructed record, sequences of the operators the Pointer class defines
+(+ - * // % ** << >> & ^ |, also in place; integer operands, the running pointer itself or another pointer of the record) are applied whose
+intermediate results pass through 0 (`p - p`, `(p - k) + m`, `p & 0 | m`, `p * 0 + m`, `p % 1`, `p >> bits` ...), beyond the data, beyond the
+address space, below zero - and back.  After every chain (and some prefixes): the result is an instance of the start pointer's class, its
+address is what the operators give on plain integers, dereferencing it gives what parsing the target type (separately loaded copy) at that
+absolute offset of a fresh stream of the same kind gives (value or exception class; `T **` followed one more hop), the parked stream stays
+where it was, a repeated dereference agrees, dumps() writes the address, the start pointer is unchanged; a null RESULT raises
+NullPointerDereference, a non-null result reached THROUGH null dereferences normally, anything computed from a stream-less pointer raises
+NullPointerDereference.  All seven widths, both byte orders, both readers.
 """
 from __future__ import annotations
 
@@ -56,6 +70,7 @@ from .. import common, defs, impl, refimpl, s2_ptr
 from .. import t5_c16 as t5
 from .. import u4_c16 as u4
 from .. import v4_c16 as v4
+from .. import v6_c16 as v6
 from ..common import A, Case, Result, mkrng, parse_sexp, run_driver, sx
 
 PTRS = dict(s2_ptr.ALL_PTRS)   # uint8 .. uint128, packable and not
@@ -92,6 +107,12 @@ def run(env) -> Result:
                 "user stream whose read() fails inside the target (OSError, TimeoutError, RuntimeError, ValueError, own class; BytesIO subclass and plain read/seek/tell object): outcome == "
                 "parsing the target at that offset of a fresh stream of the same kind, stream position unchanged after every access (dereference(), attribute, str()), repeated access == "
                 "fault-free parse, and the next record parsed from the same stream == fresh parse at that offset (value, end, its pointers); 7 widths x {<,>} x {interpreted, compiled}. "
+                "Pointer-arithmetic chains: generated records with pointers (members, array, pointer-to-pointer; 9 target kinds; packed/aligned; BytesIO, BytesIO subclass, plain object, bytes) holding "
+                "null / small / in-range / beyond-the-data / top addresses; from every pointer (null ones, the pointer behind pp, a pointer type read on its own, a stream-less one) chains of 1-7 "
+                "operators out of + - * // % ** << >> & ^ | (also in place; int or pointer operands) whose intermediate results pass through 0, beyond the data / address space and below zero and back: "
+                "result is of the start pointer's class, address == the operators on plain integers, dereference == parse of the target at that offset of a fresh stream (null result: "
+                "NullPointerDereference; non-null result reached through null: normal; no stream: NullPointerDereference), stream position unchanged, stable, dumps() == address, start pointer "
+                "unchanged; 7 widths x {<,>} x {interpreted, compiled}. "
                 "distinct = (config, target, address, data); non-trivial = non-null address (failed-dereference family: the access fails with something other than EOFError)")
     dc = impl.dc()
     rnd = mkrng(env["seed"], "c16")
@@ -391,6 +412,8 @@ def run(env) -> Result:
     u4.chain_walks(dc, env, res, viol, mkrng(env["seed"], "c16-chains"))
     # ---- dereferences that fail with something other than the end of the stream: position restored, next record unaffected (own PRNG stream)
     v4.failed_derefs(dc, env, res, viol, mkrng(env["seed"], "c16-failed-deref"))
+    # ---- pointer-arithmetic chains through null / beyond the data / below zero and back: same type, same stream (own PRNG stream)
+    v6.arith_chains(dc, env, res, viol, mkrng(env["seed"], "c16-arith-chains"))
     # pointer inside a fixed-size union (finding F11): the dereference must read the outer stream
     for pname, endian in itertools.product(("uint16", "uint32"), "<>"):
         cs = dc.cstruct(endian=endian, pointer=pname)
